@@ -384,6 +384,11 @@ def concrete_playback(work, spec):
     # Kani also emits one test per satisfied cover: keep those generated for failed checks
     bad = [t for t in tests if "`cover`" not in t.split("#[test]")[0]]
     if not bad:
+        # Kani sometimes emits tests only for the satisfied covers (seen when the failing assertion does not depend
+        # on any symbolic value). Their input vectors are still complete inputs of the harness: replaying them natively
+        # is sound - the native run decides whether the violation is real - so they are used as candidates.
+        bad = tests
+    if not bad:
         return None
     return "\n".join(bad[:3])
 
